@@ -780,4 +780,13 @@ theorem C13_nested_ops_current_tree (b : Bool) :
     ∀ o ∈ assocNestedOps, nestedSkipHooks b o.2.2.2.1 = some b := fun o ho =>
   C13_nested_pass_flag_faithful o.2.2.2.1 (C13_assoc_sessions_pass_flag.1 o ho) b
 
+/-- the tree under check: NO Session literal of association.go or callbacks/*.go (association saves, association mode,
+    delete-with-associations, preload, callMethod) switches hooks off by a constant — every SkipHooks field passes the
+    statement's own flag, so each of these derived statements runs hooks iff the enclosing operation does -/
+theorem C13_callback_sessions_pass_flag :
+    (∀ l ∈ callbackSessionLits, skipFieldsPassFlag l.2.2 = true) ∧
+    ∀ l ∈ callbackSessionLits, ∀ b, nestedSkipHooks b l.2.2 = some b :=
+  have h : ∀ l ∈ callbackSessionLits, skipFieldsPassFlag l.2.2 = true := by decide
+  ⟨h, fun l hl b => C13_nested_pass_flag_faithful l.2.2 (h l hl) b⟩
+
 end Gorm
